@@ -10,7 +10,6 @@ import (
 	"fmt"
 	"go/types"
 	"sort"
-	"strings"
 
 	"golang.org/x/tools/go/ssa"
 )
@@ -582,10 +581,9 @@ func isReadOnlyArg(callee string, a ssa.Value, args []ssa.Value) bool {
 		return true
 	case "crypto/subtle.ConstantTimeCopy":
 		return len(args) == 3 && a == args[2]
-	case "invoke io.Writer.Write", "invoke hash.Hash.Write", "invoke io.Reader.Read", "invoke hash.Hash.Sum":
-		// the receiver absorbs/produces; the byte slice argument of Write/Sum is only read,
-		// the one of Read is written (handled by default path)
-		if strings.HasSuffix(callee, ".Write") && len(args) == 2 && a == args[1] {
+	case "invoke (io.Writer).Write":
+		// the receiver absorbs; the byte slice argument of Write is only read
+		if len(args) == 2 && a == args[1] {
 			return true
 		}
 	}
